@@ -204,7 +204,7 @@ MANIFEST_TEXT = {
                 "re-decided by the kernel on every run. Tied to the code by the probing translator and a differential correspondence over the quantifier's systematic perturbations and random XML, "
                 "with Spec.conformant evaluated in Lean on what the real parser returned as oracle.",
         "note": "Trusted: Lean kernel + standard axioms; tools/extract.py probes constructors over a finite universe of values (strings outside it are covered by the correspondence only); "
-                "expat/ElementTree are not modelled here (the model starts from the parsed element); number recogniser pinned to the regex literals (theorem number_regexps_pinned).",
+                "expat/ElementTree are not modelled here (the model starts from the parsed element); the number recogniser is hand-written for the regular expressions of checks.number and tied to them by the correspondence; a pin on the literals (Properties/Pins.lean) is a change detector that escalates the search, not an obligation.",
         "technique": "Lean 4 generic theorem over class tables + decide +kernel instance on the regenerated table + differential correspondence",
     },
     "C04": {
